@@ -70,7 +70,7 @@ Proof.
               | Some s1 =>
                   match settle fuel0 nt T s1 with
                   | SOk s2 =>
-                      if ambiguous_blocked s2 || ambiguous_discard nt (st p) s2 rel
+                      if ambiguous_blocked s2 || ambiguous_discard nt (st p) s2 rel || order_sensitive nt T s1 s2
                       then ({| st := st p; next_id := next_id p; stopped := true; bad := false |}, CSkip, snapshot (st p))
                       else ({| st := s2; next_id := (next_id p + used)%Z; stopped := false; bad := false |}, c, snapshot s2)
                   | _ => ({| st := st p; next_id := next_id p; stopped := true; bad := true |}, CSkip, snapshot (st p))
@@ -78,7 +78,7 @@ Proof.
               end))))).
   { intros acts c used rel. destruct (apply_all nt T (st p) acts) as [s1|] eqn:Ea; [|exact Hr].
     destruct (settle fuel0 nt T s1) as [s2| |] eqn:Es; try exact Hr.
-    destruct (ambiguous_blocked s2 || ambiguous_discard nt (st p) s2 rel); [exact Hr|]. cbn.
+    destruct (ambiguous_blocked s2 || ambiguous_discard nt (st p) s2 rel || order_sensitive nt T s1 s2); [exact Hr|]. cbn.
     destruct (settle_run _ _ _ _ _ Es) as [[sch Hrun] _].
     eapply reachable_run; [|exact Hrun]. eapply reachable_run; [exact Hr|]. apply apply_all_run. exact Ea. }
   destruct i as [|n k okind arg|n k okind arg| | |].
